@@ -126,3 +126,7 @@ def check(ctx):
     # ---- R04-g a declared shield reaches the scope that is entered ---------------------------------------------------------------------
     from .common import shield_chain
     shield_chain(ctx, "R04-g")
+
+    # ---- R04-h a worker thread is never attached to a scope outside the caller's own shields (shared with C14/R14-c)
+    from .c14 import worker_scope
+    worker_scope(ctx, "R04-h")
